@@ -140,16 +140,22 @@ TEXT = {
         "technique": "Lean 4 proof (invariant by induction over operation histories + loop lemmas; trace monitor proved sound for all scripts; interval invariant of the statistics queue) + differential correspondence on command histories, task scripts and statistics scripts",
     },
     "C01": {
-        "level": "Kernel-checked for EVERY script of one connection task - frames of any kind (corrupt, duplicate, overlapping, unrequested, truncated "
+        "level": "Kernel-checked for the WHOLE CLIENT in closed loop (T6, model Swarm/Loop): any number of connection tasks and the manager, every reply a "
+                 "task consumes being the manager's answer to the command it sent, connections added at any time, steps interleaved arbitrarily, any "
+                 "inputs, every chooser outcome: in every reachable state, for a piece i the manager treats as owned some task has written a piece file "
+                 "while fetching piece i, named by the hash the torrent lists for i, with data hashing to exactly that value; on the way: the manager's "
+                 "record of every live connection mirrors its task (allLinked_reach), tasks are told the listed hashes (allListed_reach), PieceDone only "
+                 "while assigned (T6b). Piece file names determine the hash (T5). And kernel-checked for EVERY script of one connection task - frames of any kind (corrupt, duplicate, overlapping, unrequested, truncated "
                  "blocks), broadcasts, manager replies, ticks, stream ends (C01_trace, monitor P01 proved sound by induction over the script): a piece "
                  "file is written only under the name of the hash listed for the piece the connection was asked to download, only with contents hashing "
                  "to exactly that value; PieceDone is reported only immediately after such a store and every store is reported; plus the local theorems "
                  "T1 (only a block answering an outstanding request can complete a piece), T2 (hash mismatch: nothing written, task ends) and, in the "
                  "manager model, T3: a piece becomes owned only by pieceDone of the peer it is assigned to (all event kinds). sha1 is a parameter. The "
                  "same monitor runs on the implementation's trace of every generated script.",
-        "note": KERNEL + "the composition of several tasks with the manager over all interleavings is given by C01_trace per task + T3 + the C12 invariant, "
-                "not by a single system-level theorem; file system (atomic rename), external modification of piece files and SHA-1 collisions outside.",
-        "technique": "Lean 4 proof (trace monitor proved sound for all scripts by induction; case analysis of every handler; manager invariant re-used) + the same monitor on implementation traces + differential correspondence",
+        "note": KERNEL + "the closed-loop model takes tokio's atomicity of command+reply per connection (the task blocks on its reply channel) and treats a "
+                "broadcast as an input like any other (its delay and loss are outside); it is tied to the code through its two halves (task scripts, manager "
+                "histories), not by an own differential run; file system (atomic rename), external modification of piece files and SHA-1 collisions outside.",
+        "technique": "Lean 4 proof (closed-loop product of task and manager models: link invariant by induction over all interleavings; trace monitor proved sound for all scripts; case analysis of every handler) + the same monitor on implementation traces + differential correspondence",
     },
     "C11": {
         "level": "Kernel-checked for EVERY script of frames, broadcasts, manager replies, timer ticks and stream ends (C11_trace, by the trace-monitor "
